@@ -2,6 +2,7 @@ package codecrun
 
 import (
 	"fmt"
+	"github.com/TarsCloud/TarsGo/tars/protocol/codec"
 	"math/rand"
 	"reflect"
 	"sort"
@@ -196,6 +197,52 @@ func (e *Engine) RunC04(perType int) {
 					add("reuse", keptBytes, true, fmt.Sprintf("ok %s %d", want, len(keptBytes)), "reused target: absent optional members at their IDL defaults", kept)
 				}
 			}
+			// B2: the optional members INSIDE a nested struct member removed (all of them: the nested
+			// struct then arrives as StructBegin directly followed by StructEnd, what an older writer
+			// that knows none of the members sends; or a random half)
+			for fi, f := range fields {
+				var fd *Field
+				for i := range s.Fields {
+					if s.Fields[i].Tag == f.tag {
+						fd = &s.Fields[i]
+					}
+				}
+				if fd == nil || fd.Ty.Kind != "t" || f.ty != 10 || fd.Ty.St == nil {
+					continue
+				}
+				for _, all := range []bool{true, false} {
+					var keptKids []tlv
+					inner := append([]byte{}, gb[f.beg:f.body]...)
+					dropped := 0
+					for _, k := range f.kids {
+						opt := false
+						for _, kfd := range fd.Ty.St.Fields {
+							if kfd.Tag == k.tag && !kfd.Req {
+								opt = true
+							}
+						}
+						if opt && (all || rng.Intn(2) == 0) {
+							dropped++
+							continue
+						}
+						keptKids = append(keptKids, k)
+						inner = append(inner, gb[k.beg:k.end]...)
+					}
+					if dropped == 0 {
+						continue
+					}
+					inner = append(inner, wfHead(11, 0)...)
+					nf := f
+					nf.kids = keptKids
+					mod := append(append([]tlv{}, fields[:fi]...), nf)
+					mod = append(mod, fields[fi+1:]...)
+					nb := append(append(append([]byte{}, gb[:f.beg]...), inner...), gb[f.end:]...)
+					if want, err := lenient.interpStruct(s, mod); err == nil {
+						add("absent", nb, false, fmt.Sprintf("ok %s %d", want, len(nb)), "optional members of a nested struct absent (nested struct possibly empty)", mod)
+						add("reuse", nb, true, fmt.Sprintf("ok %s %d", want, len(nb)), "reused target: optional members of a nested struct absent", mod)
+					}
+				}
+			}
 			// C: one required member removed → error
 			var reqIdx []int
 			for j, f := range fields {
@@ -285,9 +332,122 @@ func init() {
 		if e.Opts.Thorough() {
 			n = 1500
 		}
+		if e.Opts.Replay != "" {
+			var probe struct {
+				Kind string `json:"kind"`
+			}
+			if common.ReadReplay(e.Opts.Replay, &probe) == nil && probe.Kind == "structend-lookahead" {
+				e.structEndLookahead()
+				return
+			}
+		}
 		e.RunC04(n)
+		if e.Opts.Replay == "" {
+			e.structEndLookahead()
+		}
 		e.Res.Rule = "per generated struct type and random value: (unknown) 1–3 well-formed unknown members of random wire type (incl. nested struct/list/map/simple-list, " +
 			"extended tags) inserted where tag order allows, also inside nested struct members; (absent) random subsets of optional members removed; " +
 			"(missing-required) one required member removed; (reuse) decoding into a target holding another random value; non-trivial = distinct (variant,type,bytes)"
+	}
+}
+
+// structEndLookahead: what a generated ReadBlock does for a nested struct whose optional members are
+// all absent — in particular the struct that arrives as StructBegin directly followed by StructEnd,
+// as an older writer that knows none of the members sends it. Every optional read (any member tag,
+// tag 0 included: the end marker itself is encoded with tag 0) must report "absent" without error and
+// without consuming the end marker; SkipToStructEnd must then consume exactly the marker. Driven on
+// the codec primitives directly (oracle on the implementation only).
+func (e *Engine) structEndLookahead() {
+	type rd func(r *codec.Reader, tag byte) (changed bool, err error)
+	readers := map[string]rd{
+		"int8": func(r *codec.Reader, t byte) (bool, error) {
+			v := int8(7)
+			err := r.ReadInt8(&v, t, false)
+			return v != 7, err
+		},
+		"int32": func(r *codec.Reader, t byte) (bool, error) {
+			v := int32(7)
+			err := r.ReadInt32(&v, t, false)
+			return v != 7, err
+		},
+		"int64": func(r *codec.Reader, t byte) (bool, error) {
+			v := int64(7)
+			err := r.ReadInt64(&v, t, false)
+			return v != 7, err
+		},
+		"uint16": func(r *codec.Reader, t byte) (bool, error) {
+			v := uint16(7)
+			err := r.ReadUint16(&v, t, false)
+			return v != 7, err
+		},
+		"bool": func(r *codec.Reader, t byte) (bool, error) {
+			v := true
+			err := r.ReadBool(&v, t, false)
+			return !v, err
+		},
+		"string": func(r *codec.Reader, t byte) (bool, error) {
+			v := "dflt"
+			err := r.ReadString(&v, t, false)
+			return v != "dflt", err
+		},
+		"f64": func(r *codec.Reader, t byte) (bool, error) {
+			v := 1.5
+			err := r.ReadFloat64(&v, t, false)
+			return v != 1.5, err
+		},
+		"skipto-list": func(r *codec.Reader, t byte) (bool, error) {
+			have, err := r.SkipTo(codec.LIST, t, false)
+			return have, err
+		},
+		"skiptonocheck": func(r *codec.Reader, t byte) (bool, error) {
+			have, _, err := r.SkipToNoCheck(t, false)
+			return have, err
+		},
+	}
+	for _, outerTag := range []byte{0, 3, 15, 200} {
+		for _, tags := range [][]byte{{0}, {0, 1}, {1}, {0, 5, 14, 15, 16, 255}, {15}, {200, 255}} {
+			for name, f := range readers {
+				// StructBegin(outerTag) StructEnd, then a sentinel member of the enclosing struct
+				data := append(append(wfHead(10, int(outerTag)), wfHead(11, 0)...), 0x5a)
+				r := codec.NewReader(data)
+				bad := ""
+				func() {
+					defer func() {
+						if p := recover(); p != nil {
+							bad = fmt.Sprintf("panic %v", p)
+						}
+					}()
+					if have, err := r.SkipTo(codec.StructBegin, outerTag, true); err != nil || !have {
+						bad = fmt.Sprintf("SkipTo(StructBegin) failed: %v", err)
+						return
+					}
+					for _, t := range tags {
+						changed, err := f(r, t)
+						if err != nil {
+							bad = fmt.Sprintf("optional %s member at tag %d of an empty nested struct: error %v", name, t, err)
+							return
+						}
+						if changed {
+							bad = fmt.Sprintf("optional %s member at tag %d of an empty nested struct reported present / changed its target", name, t)
+							return
+						}
+					}
+					if err := r.SkipToStructEnd(); err != nil {
+						bad = fmt.Sprintf("SkipToStructEnd after absent members: %v", err)
+						return
+					}
+					if rest := r.Next(1 << 30); len(rest) != 1 || rest[0] != 0x5a {
+						bad = fmt.Sprintf("after the empty nested struct %d bytes are left, expected the 1 sentinel byte", len(rest))
+					}
+				}()
+				e.Res.Count(fmt.Sprintf("lookahead/%d/%v/%s", outerTag, tags, name), "structend-lookahead", true)
+				e.Res.TracesValidated++
+				if bad != "" {
+					e.Res.Violate(common.Violation{Signature: "C04:absent-optional-error:empty-nested-struct", What: bad,
+						Case: common.Case{Stream: "schema", Op: map[string]interface{}{"kind": "structend-lookahead", "outer_tag": outerTag, "tags": fmt.Sprint(tags), "reader": name, "hex": common.Hex(data)}, Impl: bad}})
+					return
+				}
+			}
+		}
 	}
 }
